@@ -32,7 +32,7 @@ CLIENT = ("2001:db8::c", 40000)
 OTHERPORT = ("2001:db8::1", 5684)
 OTHERIP = ("2001:db8::2", 5683)
 
-INJ = ("ack", "rst", "resp", "ack+1", "ack-1", "ack@port", "ack@ip", "rst@port")
+INJ = ("ack", "rst", "resp", "ackresp-badtoken", "ack+1", "ack-1", "ack@port", "ack@ip", "rst@port")
 POS = ("now", "mid", "tie")
 
 
@@ -162,7 +162,7 @@ class ConScenario(Scenario):
                 if pos == "tie" and tn - w.loop.time() < 1e-9:
                     continue
                 for inj in INJ:
-                    if inj == "resp" and self.params["source"] != "request":
+                    if inj in ("resp", "ackresp-badtoken") and self.params["source"] != "request":
                         continue
                     en.append(("inj:%s:%s" % (pos, inj), 1))
         return en
@@ -185,6 +185,9 @@ class ConScenario(Scenario):
             return src, (rc.RST, 0, mid, b"", [], b"")
         if kind == "resp":
             return src, (rc.ACK, 69, mid, st.token, [], b"ok")
+        if kind == "ackresp-badtoken":
+            # an ACK with the right ID from the right endpoint acknowledges the message whatever it carries
+            return src, (rc.ACK, 69, mid, b"\xde\xad", [], b"stray")
         raise ValueError(inj)
 
     def apply(self, st, i, label):
@@ -203,9 +206,9 @@ class ConScenario(Scenario):
             src, msg = self._datagram(st, inj)
             st.injected += 1
             w.inject(src, st.node.addr, rc.encode(msg))
-            if inj in ("ack", "rst", "resp") and st.m_active:
+            if inj in ("ack", "rst", "resp", "ackresp-badtoken") and st.m_active:
                 st.m_active = False
-                st.m_end = (inj, w.loop.time())
+                st.m_end = ("ack" if inj == "ackresp-badtoken" else inj, w.loop.time())
         # reference model: every retransmission deadline that has been reached has fired
         now = w.loop.time()
         while st.m_active and st.m_due <= now + 1e-12:
